@@ -318,18 +318,128 @@ theorem table_monotone (c : Comp Θ S L σ) (s : State Θ S L σ) (ops : List (T
   | nil => exact List.prefix_refl _
   | cons op ops ih => exact (table_mono_applyTOp c s op).trans (ih _)
 
-/-! ## `restore` (current code): the table is rebuilt from the line-up only — known finding
+/-! ## `restore`: the table stored with the checkpoint comes back -/
 
-After `set_samplers` an id can be reassigned by a restore: the checkpoint does not persist the table. -/
-section RestoreWitness
-/-- history: class 0 produced batch 0 (id 0); `set_samplers([class 1])` gives class 1 the id 1; after a
-checkpoint and restore the table is rebuilt as `{1 ↦ 0}`: id 0 now names class 1, id 1 names nothing -/
-theorem restore_reassigns_ids :
-    let t0 := constructTable [0]                 -- {0 ↦ 0}
-    let t1 := updateTable t0 [1]                 -- {0 ↦ 0, 1 ↦ 1}
-    let tR := constructTable [1]                 -- what restore rebuilds for the line-up [class 1]
+/-- what the saving folder holds satisfies the same invariant as a live object: the stored table is well
+formed, covers the stored line-up and every class in the stored history, and the stored labels are its ids -/
+structure DiskInv (c : Comp Θ S L σ) (s : State Θ S L σ) : Prop where
+  both : s.disk.isSome → s.diskTable.isSome
+  inv : ∀ d t, s.disk = some d → s.diskTable = some t →
+    TInv c ({ core := d, table := t, disk := s.disk, diskTable := s.diskTable } : State Θ S L σ)
+
+theorem tinv_congr (c : Comp Θ S L σ) {s s' : State Θ S L σ} (h : TInv c s) (hc : s.core = s'.core) (ht : s.table = s'.table) :
+    TInv c s' := by
+  obtain ⟨h1, h2, h3, h4⟩ := h
+  exact ⟨ht ▸ h1, by rw [← hc, ← ht]; exact h2, by rw [← hc, ← ht]; exact h3, by rw [← hc, ← ht]; exact h4⟩
+
+theorem diskInv_stepState (c : Comp Θ S L σ) (s : State Θ S L σ) (k : Core Θ S L σ) (hd : DiskInv c s)
+    (hk : TInv c ({ s with core := k } : State Θ S L σ)) : DiskInv c (stepState s k) := by
+  unfold stepState
+  by_cases hf : k.cfg.folder = true
+  · simp only [hf, if_true]
+    refine ⟨fun _ => rfl, ?_⟩
+    intro d t hd' ht'
+    simp only [Option.some.injEq] at hd' ht'
+    subst hd' ht'
+    exact tinv_congr c hk rfl rfl
+  · simp only [hf, if_false]
+    refine ⟨hd.both, ?_⟩
+    intro d t hd' ht'
+    exact tinv_congr c (hd.inv d t hd' ht') rfl rfl
+
+theorem inv_calLoop_disk (c : Comp Θ S L σ) (n : Nat) (s : State Θ S L σ) (h : TInv c s) (hd : DiskInv c s) :
+    TInv c (calLoop c n s).1 ∧ DiskInv c (calLoop c n s).1 := by
+  induction n generalizing s with
+  | zero => exact ⟨h, hd⟩
+  | succ n ih =>
+    obtain ⟨h1, h2, h3⟩ := tinv_runBatch c s h
+    apply calLoop_cases c n s (fun r => TInv c r.1 ∧ DiskInv c r.1)
+    · intro k f heq; rw [heq] at h1 h2 h3
+      exact ⟨⟨h.ok, h1, h2, h3⟩, ⟨hd.both, fun d t a b => tinv_congr c (hd.inv d t a b) rfl rfl⟩⟩
+    · intro k heq _; rw [heq] at h1 h2 h3
+      have hk : TInv c ({ s with core := k } : State Θ S L σ) := ⟨h.ok, h1, h2, h3⟩
+      exact ⟨tinv_congr c hk rfl rfl, diskInv_stepState c s k hd hk⟩
+    · intro k heq _; rw [heq] at h1 h2 h3
+      have hk : TInv c ({ s with core := k } : State Θ S L σ) := ⟨h.ok, h1, h2, h3⟩
+      exact ih _ (tinv_congr c hk rfl rfl) (diskInv_stepState c s k hd hk)
+
+/-- all operations, `restore` included -/
+inductive ROp (σ : Type) where
+  | op (o : TOp σ)
+  | restore
+
+def applyROp (c : Comp Θ S L σ) (s : State Θ S L σ) : ROp σ → State Θ S L σ
+  | .op o => applyTOp c s o
+  | .restore => (restore s).getD s
+
+theorem inv_applyROp (c : Comp Θ S L σ) (s : State Θ S L σ) (op : ROp σ) (h : TInv c s) (hd : DiskInv c s) :
+    TInv c (applyROp c s op) ∧ DiskInv c (applyROp c s op) := by
+  cases op with
+  | restore =>
+    simp only [applyROp, restore]
+    cases hdk : s.disk with
+    | none => simpa [hdk] using And.intro h hd
+    | some d =>
+      obtain ⟨t, ht⟩ := Option.isSome_iff_exists.mp (hd.both (by simp [hdk]))
+      simp only [Option.map_some, Option.getD_some, ht]
+      have := hd.inv d t hdk ht
+      refine ⟨tinv_congr c this rfl rfl, ⟨fun _ => by simp [ht], ?_⟩⟩
+      intro d' t' a b
+      simp only at a b
+      exact tinv_congr c (hd.inv d' t' (hdk ▸ a) (ht ▸ b)) rfl rfl
+  | op o =>
+    cases o with
+    | calibrate n =>
+      simp only [applyROp, applyTOp, calibrate]
+      split
+      · exact inv_calLoop_disk c n _ (tinv_setSeeds c s h)
+          ⟨hd.both, fun d t a b => tinv_congr c (hd.inv d t a b) rfl rfl⟩
+      · exact inv_calLoop_disk c n _ h hd
+    | checkpoint =>
+      simp only [applyROp, applyTOp, checkpoint]
+      refine ⟨⟨h.ok, h.cov, h.logcov, h.lab⟩, ⟨fun _ => rfl, ?_⟩⟩
+      intro d t a b
+      simp only [Option.some.injEq] at a b
+      subst a b
+      exact ⟨h.ok, h.cov, h.logcov, h.lab⟩
+    | setSamplers ss =>
+      have := tinv_setLineup c s ss s.core.sched h
+      exact ⟨⟨this.ok, this.cov, this.logcov, this.lab⟩,
+             ⟨hd.both, fun d t a b => tinv_congr c (hd.inv d t a b) rfl rfl⟩⟩
+    | setScheduler ss sc =>
+      exact ⟨tinv_setLineup c s ss sc h,
+             ⟨hd.both, fun d t a b => tinv_congr c (hd.inv d t a b) rfl rfl⟩⟩
+
+/-- **C18 with restore.**  For every sequence of `calibrate` / `create_checkpoint` / `set_samplers` /
+`set_scheduler` / `restore_from_checkpoint`, in the state reached — and in what any checkpoint holds — the id
+table is well formed, covers the line-up and every class in the history, and every stored label is the table's
+id of the class that produced the row: the id-to-name table is recoverable from every checkpoint the
+calibrator writes. -/
+theorem labels_identify_class_with_restore (c : Comp Θ S L σ) (cfg : Cfg) (samplers : List (Smp σ)) (sched : Sched)
+    (ops : List (ROp σ)) :
+    TInv c (ops.foldl (applyROp c) (init cfg samplers sched)) ∧
+    DiskInv c (ops.foldl (applyROp c) (init cfg samplers sched)) := by
+  have h0 := labels_identify_class c cfg samplers sched []
+  have hd0 : DiskInv c (init cfg samplers sched : State Θ S L σ) :=
+    ⟨by simp [init], by intro d t a; simp [init] at a⟩
+  have : ∀ s : State Θ S L σ, TInv c s → DiskInv c s →
+      TInv c (ops.foldl (applyROp c) s) ∧ DiskInv c (ops.foldl (applyROp c) s) := by
+    induction ops with
+    | nil => intro s h hd; exact ⟨h, hd⟩
+    | cons op ops ih => intro s h hd; obtain ⟨a, b⟩ := inv_applyROp c s op h hd; exact ih _ a b
+  exact this _ (by simpa using h0) hd0
+
+/-- restoring the checkpoint of a state gives back its table exactly -/
+theorem restore_checkpoint_table (s : State Θ S L σ) :
+    (restore (checkpoint s)).map (·.table) = some s.table := rfl
+
+/-- the defect that was repaired: rebuilding the table from the current line-up (what `restore` and the
+plotting lookup used to do) reassigns ids after `set_samplers` — class 1 had id 1, a rebuilt table gives it 0 -/
+theorem rebuilt_table_reassigns_ids :
+    let t0 := constructTable [0]
+    let t1 := updateTable t0 [1]
+    let tR := constructTable [1]
     lookup t1 1 = some 1 ∧ lookup tR 1 = some 0 ∧ lookup t1 0 = some 0 ∧ lookup tR 0 = none := by decide
-end RestoreWitness
 
 /-! ### non-vacuity -/
 example : constructTable [3, 5, 3, 7] = [(3, 0), (5, 1), (7, 2)] := by decide
